@@ -238,6 +238,10 @@ def replay_generic(ctx, obj):
     from ._adapters2 import SEARCH_ONLY
 
     ad = ADAPTERS.get(inp["format"]) or SEARCH_ONLY.get(inp["format"])
+    if inp["format"] == "cube" and inp["kind"] == "c03":
+        from ._cube import CUBE
+
+        ad = CUBE
     if inp["format"] == "fchk":
         from . import _fchk
 
